@@ -13,7 +13,11 @@ PROP = 'C03'
 LEAN_TARGETS = ['MorphKgc.Props.C03']
 GEN_KEYS = []
 M = 'MorphKgc.Props.C03'
-THEOREMS = [{'name': f'Props.C03.{n}', 'module': M} for n in ['C03_F1_ntriples_graph_only', 'C03_F2_reference_iri_collision']]
+THEOREMS = [{'name': f'Props.C03.{n}', 'module': M} for n in [
+    'C03_partial_separation', 'C03_maximal_separation', 'C03_disjoint_partial', 'C03_disjoint_maximal', 'C03_disjoint',
+    'C03_disjoint_partial_syntactic', 'C03_file_nodup', 'tokenSafe_of_synSafe', 'C03_F1_ntriples_graph_only', 'C03_F1_nquads_differ',
+    'C03_F2_reference_iri_breaks_tokens', 'C03_F3_literal_type_on_iri']] + [
+    {'name': 'Py.scan_separates', 'module': 'MorphKgc.Lemmas.Scan'}, {'name': 'Py.prefix_interval', 'module': 'MorphKgc.Lemmas.Scan'}]
 RULE = ('generated documents (term maps with equal / nested / interleaved constant prefixes, several graph maps, typed and tagged literals, '
         'blank nodes) x tables whose cells are drawn from a Unicode alphabet AND from values assembled out of the mapping\'s own constants '
         '(data the grouping never saw); each mapping group is materialized separately in-process (the function the CLI workers run) and all '
